@@ -57,6 +57,16 @@ def translate():
             fails.append("editor.rs: literal %s is gone" % lit)
     if not re.search(r'b"x-real-ip" \| b"x-forwarded-for" \| b"forwarded" \| b"x-request-id"', pk):
         fails.append("pkawa.rs: handle_trailer no longer elides exactly x-real-ip|x-forwarded-for|forwarded|x-request-id")
+    h1 = open(os.path.join(vlib.REPO, "lib/src/protocol/mux/h1.rs")).read()
+    h2 = open(os.path.join(vlib.REPO, "lib/src/protocol/mux/h2.rs")).read()
+    mt = re.search(r"pub\(super\) fn elide_proxy_owned_trailers.*?\n}\n", pk, re.S)
+    tn = re.findall(r'compare_no_case\(key, (b"[^"]+"|sozu_id_header)\)', mt.group(0)) if mt else []
+    if tn != ['b"x-forwarded-for"', 'b"forwarded"', 'b"x-real-ip"', 'b"x-request-id"', 'sozu_id_header']:
+        fails.append("pkawa.rs: elide_proxy_owned_trailers names are %r" % tn)
+    if len(re.findall(r"pkawa::elide_proxy_owned_trailers\(", h1)) != 2:
+        fails.append("h1.rs: the two parse sites no longer filter request trailers (elide_proxy_owned_trailers)")
+    if not re.search(r"if status\.is_ok\(\) && !was_initial && self\.position\.is_server\(\) \{[^}]*pkawa::elide_proxy_owned_trailers\(", h2, re.S):
+        fails.append("h2.rs: handle_headers_frame no longer filters request trailers (elide_proxy_owned_trailers)")
     m = re.search(r"pub\(super\) fn is_connection_specific_header.*?\n}\n", pk, re.S)
     names = re.findall(r'compare_no_case\(name, b"([^"]+)"\)', m.group(0)) if m else []
     if names != ["connection", "proxy-connection", "transfer-encoding", "upgrade", "keep-alive"]:
@@ -281,7 +291,6 @@ LEVEL_TEXT = ("Machine-checked proof (Coq 8.16) over an executable model of the 
               "against the extracted model, with the property's own oracle evaluated on the implementation's output.")
 LEVEL_NOTE = ("Trusted: Coq kernel; extraction and ocaml/driver.ml for the correspondence only; kawa's parser/serialiser, "
               "loona-hpack and Display of IpAddr are oracles (only their view/alphabet is assumed). Per-frontend request "
-              "rewrites are operator configuration and outside the model. Open finding: HTTP/1 trailers are forwarded "
-              "unfiltered and HTTP/2 trailers may carry the correlation header.")
+              "rewrites are operator configuration and outside the model.")
 TECHNIQUE = "Rocq/Coq proof over an executable Gallina model + differential correspondence (extracted OCaml vs real crate)"
 CLAIMED = True
